@@ -66,6 +66,7 @@ extern void cfg_yylex_destroy(void);
 extern int  cfg_lexer_include(cfg_t *cfg, const char *fname);
 extern void cfg_scan_fp_begin(FILE *fp);
 extern void cfg_scan_fp_end(void);
+extern int  cfg_scan_fp_active(void);
 extern int  cfg_lexer_include_depth(void);
 extern void cfg_lexer_include_unwind(int depth);
 
@@ -2120,7 +2121,9 @@ DLLIMPORT int cfg_free(cfg_t *cfg)
 		free(cfg->filename);
 
 	free(cfg);
-	if (isroot)
+	/* a section may be named "root" as well, and may be freed (replaced
+	 * by one with the same title) in the middle of a parse */
+	if (isroot && !cfg_scan_fp_active())
 		cfg_yylex_destroy();
 
 	return CFG_SUCCESS;
